@@ -172,7 +172,7 @@ def generate(prop, rng, tier):
             ops.append({"op": "pickle"})
         if rng.random() < 0.12:
             ops.append({"op": "stale", "back": rng.randint(2, 6), "len": rng.randint(1, 3),
-                        "change": rng.random() < 0.5})
+                        "change": rng.random() < 0.5, "up": rng.random() < 0.4})
         if rng.random() < 0.12:
             ops.append({"op": "bad_call", "kind": rng.choice(["faulty_cv", "faulty_cv", "insample_X"]),
                         "after": rng.randint(0, 3), "take": rng.choice([6, 8])})
@@ -575,10 +575,10 @@ class Engine:
 
     def op_stale(self, i, op):
         """A batch that re-sends a stretch of already seen time points (ending before the end
-        of the data seen), without parameter updating: the property's literal clause 'after
-        every update the cutoff is the last time point of the data passed to update'.  (With
-        update_params=True the refit makes the cutoff the end of all data, fit's documented
-        behaviour, so only the non-refitting path is judged.)"""
+        of the data seen), with or without parameter updating: the property's literal clause
+        'after every update the cutoff is the last time point of the data passed to update'
+        (composites otherwise disagree with themselves: own cutoff at the end of the batch,
+        forecasts labelled from their members' cutoff)."""
         if self.after_upd or self.scen.get("exog") or self.spec["kind"] in ("gscv",):
             return
         a = self.a
@@ -590,7 +590,7 @@ class Engine:
             stop = min(actor.pos - 1, start + op["len"])
             b = actor.batch(start, stop, self.scen["series"]["seed"] + 77 + start
                             if op.get("change") else None, stop - start)
-            actor.f.update(b, update_params=False)
+            actor.f.update(b, update_params=bool(op.get("up", False)))
             actor.observe(b)
             actor.cut = stop - 1
             return b
